@@ -124,3 +124,11 @@ Definition norm_out {A} (o : out A) : out A :=
   | Err EBlame => Err ENonMergeable
   | other => other
   end.
+
+Definition out_map {A B} (f : A -> B) (o : out A) : out B :=
+  match o with
+  | Ok a => Ok (f a)
+  | Err e => Err e
+  | TypeErr => TypeErr
+  | Panic => Panic
+  end.
